@@ -14,37 +14,154 @@ from .facts import succs, callee_q
 RESULT = 'core::result::Result'
 
 
-def outcome_after_stmt(b, st, outcome):
-    if st['k'] == 'assign' and not st['pl']['p'] and st['pl']['l'] == 0:
+def outcome_after_stmt(b, st, outcome, ret_local=0):
+    if st['k'] == 'assign' and not st['pl']['p'] and st['pl']['l'] == ret_local:
         rv = st['rv']
         if rv['k'] == 'agg' and rv.get('adt') == RESULT:
             return rv['vname']
+        if st.get('inl') == 'ret':
+            return outcome
         return 'Unknown'
     return outcome
 
 
-def outcome_after_term(b, t, outcome):
-    if t['k'] == 'call' and not t['dest']['p'] and t['dest']['l'] == 0:
+def outcome_after_term(b, t, outcome, ret_local=0):
+    if t['k'] == 'call' and not t['dest']['p'] and t['dest']['l'] == ret_local:
         if 'q' in t['callee'] and callee_q(t).endswith('FromResidual>::from_residual'):
             return 'Err'
         return 'Unknown'
     return outcome
 
 
+TRY_BRANCH = 'core::ops::try_trait::Try::branch'
+BRANCH_OF = {'Ok': ('Continue', 0), 'Err': ('Break', 1), 'Some': ('Continue', 0), 'None': ('Break', 1)}
+
+
+class Frames:
+    """inlined regions of a flattened body: block -> (depth, return local of the innermost frame)"""
+    def __init__(self, b):
+        self.depth = {}
+        self.ret = {}
+        frames = sorted(b.raw.get('inlined') or [], key=lambda f_: (f_['blocks'][0], -f_['blocks'][1]))
+        for f_ in frames:
+            for bi in range(f_['blocks'][0], f_['blocks'][1]):
+                self.depth[bi] = self.depth.get(bi, 0) + 1
+                self.ret[bi] = f_['locals'][0]
+
+    def d(self, bi):
+        return self.depth.get(bi, 0)
+
+    def r(self, bi):
+        return self.ret.get(bi, 0)
+
+
+def _known_from_outcome(b, local, oc):
+    """variant of a frame's return value known from the frame outcome (assigned by from_residual => the error variant)"""
+    adt = b.lty(local).get('adt')
+    if adt == RESULT:
+        if oc == 'Err':
+            return ('v', 'Err', 1, None)
+        if oc == 'Ok':
+            return ('v', 'Ok', 0, None)
+    if adt == 'core::option::Option' and oc == 'Err':
+        return ('v', 'None', 0, None)
+    return None
+
+
+def env_after_stmt(b, st, env, oc=None):
+    """constant propagation of enum variants through whole-local moves and single-payload wrappers:
+    env = ((local, value), ...); value ('v', variant name, index, payload value | None) or ('d', discriminant)"""
+    k = st['k']
+    if k == 'dead':
+        if env and any(l == st['l'] for l, _ in env):
+            return tuple(x for x in env if x[0] != st['l'])
+        return env
+    if k != 'assign' or st['pl']['p']:
+        return env
+    dst, rv = st['pl']['l'], st['rv']
+    val = None
+    d = None
+    if rv['k'] == 'agg' and rv.get('ak') == 'adt' and 'variant' in rv:
+        payload = None
+        if len(rv['ops']) == 1 and rv['ops'][0]['k'] in ('copy', 'move') and not rv['ops'][0]['pl']['p']:
+            d = dict(env)
+            src = rv['ops'][0]['pl']['l']
+            payload = d.get(src)
+            if payload is None and st.get('inl') == 'ret':
+                payload = _known_from_outcome(b, src, oc)
+            if payload is not None and payload[0] != 'v':
+                payload = None
+        val = ('v', rv['vname'], rv['variant'], payload)
+    elif rv['k'] == 'use' and rv['op']['k'] in ('copy', 'move'):
+        pl = rv['op']['pl']
+        if not pl['p']:
+            val = dict(env).get(pl['l'])
+            if val is None and st.get('inl') == 'ret':
+                val = _known_from_outcome(b, pl['l'], oc)
+        elif len(pl['p']) == 2 and pl['p'][0]['k'] == 'downcast' and pl['p'][1]['k'] == 'field':
+            known = dict(env).get(pl['l'])
+            if known and known[0] == 'v' and known[1] == pl['p'][0].get('n') and known[3] is not None:
+                val = known[3]
+    elif rv['k'] == 'discr' and not rv['pl']['p']:
+        known = dict(env).get(rv['pl']['l'])
+        if known and known[0] == 'v':
+            val = ('d', known[2])
+    if val is None and not any(l == dst for l, _ in env):
+        return env
+    e = [x for x in env if x[0] != dst]
+    if val is not None:
+        e.append((dst, val))
+    if len(e) > 10:
+        e = e[-10:]
+    return tuple(sorted(e))
+
+
+def env_after_call(b, t, env):
+    if t['dest']['p']:
+        return env
+    dst = t['dest']['l']
+    val = None
+    if 'q' in t['callee'] and t['callee']['q'] == TRY_BRANCH and t['args'] and t['args'][0]['k'] in ('copy', 'move') \
+            and not t['args'][0]['pl']['p']:
+        known = dict(env).get(t['args'][0]['pl']['l'])
+        if known and known[0] == 'v' and known[1] in BRANCH_OF:
+            n, i = BRANCH_OF[known[1]]
+            val = ('v', n, i, None)
+    if val is None and not any(l == dst for l, _ in env):
+        return env
+    e = [x for x in env if x[0] != dst]
+    if val is not None:
+        e.append((dst, val))
+    return tuple(sorted(e))
+
+
+def feasible_succs(t, env):
+    """successors of a switch that the known discriminants allow (all of them if nothing is known)"""
+    if t['k'] == 'switch' and env and t['op']['k'] in ('copy', 'move') and not t['op']['pl']['p']:
+        known = dict(env).get(t['op']['pl']['l'])
+        if known and known[0] == 'd':
+            return [dict(zip(t['vals'], t['targets'])).get(known[1], t['otherwise'])]
+    return None
+
+
 class Explorer:
-    def __init__(self, body, rule, max_states=200000):
+    def __init__(self, body, rule, max_states=400000, start=0):
         self.b = body
         self.rule = rule
         self.max_states = max_states
         self.visited = 0
+        self.start = start
+        self.frames = Frames(body)
 
     def run(self):
         b = self.b
-        IN = collections.defaultdict(set)
-        start = (self.rule.init, 'Unassigned')
-        IN[0].add(start)
-        work = collections.deque([0])
-        queued = {0}
+        fr = self.frames
+        FULL = collections.defaultdict(set)          # block -> {(rule state, outcome stack, env)}
+        self.edges = set()                           # CFG edges some state actually took (infeasible `?` dispatches pruned)
+        start = (self.rule.init, ('Unassigned',) * (fr.d(self.start) + 1), ())
+        FULL[self.start].add(start)
+        work = collections.deque([self.start])
+        queued = {self.start}
         while work:
             bi = work.popleft()
             queued.discard(bi)
@@ -53,33 +170,56 @@ class Explorer:
                 continue
             out_edges = collections.defaultdict(set)
             t = blk['term']
-            for (rs, oc) in list(IN[bi]):
+            rl = fr.r(bi)
+            dep = fr.d(bi)
+            for (rs, ocs, env) in list(FULL[bi]):
                 self.visited += 1
+                oc = ocs[-1]
                 for st in blk['stmts']:
                     rs = self.rule.on_stmt(b, bi, st, rs)
-                    oc = outcome_after_stmt(b, st, oc)
+                    env = env_after_stmt(b, st, env, oc)
+                    oc = outcome_after_stmt(b, st, oc, rl)
+                    if oc == 'Unknown' and env and st['k'] == 'assign' and not st['pl']['p'] and st['pl']['l'] == rl:
+                        known = dict(env).get(rl)
+                        if known and known[0] == 'v' and known[1] in ('Ok', 'Err'):
+                            oc = known[1]
                 if t['k'] == 'return':
                     self.rule.on_exit(b, bi, rs, oc)
                     continue
-                oc2 = outcome_after_term(b, t, oc)
+                oc2 = outcome_after_term(b, t, oc, rl)
                 self.rule.cur_outcome = oc
                 r = self.rule.on_term(b, bi, t, rs)
+                env2 = env_after_call(b, t, env) if t['k'] == 'call' else env
+                only = feasible_succs(t, env)
+                ocs2 = ocs[:-1] + (oc2,)
                 if isinstance(r, list):
-                    for s2, rs2 in r:
-                        out_edges[s2].add((rs2, oc2))
+                    edges = [(s2, rs2) for s2, rs2 in r if only is None or s2 in only]
                 else:
-                    for s2 in succs(t):
-                        out_edges[s2].add((r, oc2))
+                    edges = [(s2, r) for s2 in (succs(t) if only is None else only)]
+                for s2, rs2 in edges:
+                    d2 = fr.d(s2)
+                    if d2 > dep:
+                        st2 = ocs2 + ('Unassigned',) * (d2 - dep)
+                    elif d2 < dep:
+                        st2 = ocs2[:len(ocs2) - (dep - d2)] or ('Unassigned',)
+                    else:
+                        st2 = ocs2
+                    out_edges[s2].add((rs2, st2, env2))
+                    self.edges.add((bi, s2))
             for s2, states in out_edges.items():
                 if b.blocks[s2].get('cleanup'):
                     continue
-                if not states <= IN[s2]:
-                    IN[s2] |= states
+                if not states <= FULL[s2]:
+                    FULL[s2] |= states
                     if s2 not in queued:
                         queued.add(s2)
                         work.append(s2)
             if self.visited > self.max_states:
                 raise RuntimeError('state explosion in ' + b.q)
+        IN = collections.defaultdict(set)
+        for bi, sts in FULL.items():
+            for (rs, ocs, env) in sts:
+                IN[bi].add((rs, ocs[-1]))
         self.IN = IN
         return IN
 
